@@ -388,12 +388,39 @@ def case_ufunc(ctx, inp):
             ref = ref0
             dout = da.from_array(base.copy(), chunks=tuple(tuple(c) for c in inp["ochunks"]))
             try:
-                res = daf(*ds, out=dout)
+                # NumPy also accepts the one-element tuple form out=(a,)
+                res = daf(*ds, out=(dout,) if inp.get("out_tuple") else dout)
             except Exception as e:
                 ctx.fail(f"da.{dname}(out=) raised: " + repr(e)[:160])
                 return
             got = dout.compute(scheduler="sync")
-            ctx.branch("out")
+            ctx.branch("out" + ("-tuple" if inp.get("out_tuple") else ""))
+        elif mode == "dtype" and kind == "ufunc":
+            # an explicit dtype= : the result is computed/cast to it (same_kind casting)
+            tgt = inp["target_dtype"]
+            try:
+                ref = np.asarray(npf(*xs, dtype=tgt))
+            except TypeError:
+                ctx.note("numpy-rejects-target-dtype")
+                return
+            try:
+                res = daf(*ds, dtype=tgt)
+                got = res.compute(scheduler="sync")
+            except Exception as e:
+                ctx.fail(f"da.{dname}(dtype=) raised on operands np.{nname} accepts: " + repr(e)[:160], observed=[inp["dtype"], tgt])
+                return
+            if res.dtype != ref.dtype:
+                ctx.fail(f"da.{dname}(dtype=): lazy dtype differs from NumPy", observed=str(res.dtype), expected=str(ref.dtype))
+            if np.asarray(got).dtype != res.dtype:
+                ctx.fail(f"da.{dname}(dtype=): computed dtype differs from the lazy dtype", observed=str(np.asarray(got).dtype), expected=str(res.dtype))
+            if np.asarray(got).shape == ref.shape and ref.dtype.kind in "fc":
+                # NumPy computes IN the target type, dask computes in the natural type and casts: compare with tolerance
+                if not np.allclose(got, ref, rtol=1e-5, atol=1e-6, equal_nan=True):
+                    ctx.fail(f"da.{dname}(dtype=) differs from np.{nname}(dtype=)")
+                ctx.branch("explicit-dtype")
+                ctx.note("ufunc:" + dname)
+                return
+            ctx.branch("explicit-dtype")
         else:
             ref = ref0
             try:
@@ -428,12 +455,13 @@ def gen_ufunc(rng, uf):
     except ValueError:
         shape2 = list(shape)
         outshape = list(shape)
-    mode = rng.choice(["plain", "plain", "where_out", "out"]) if kind == "ufunc" else "plain"
+    mode = rng.choice(["plain", "plain", "where_out", "out", "dtype"]) if kind == "ufunc" else "plain"
+    target = {"f8": "f4", "f4": "f8", "i8": "f8", "i4": "i8", "u1": "i4", "bool": "i8", "c16": "c16"}.get(dtype, "f8")
     wshape = [s if rng.random() < 0.6 else 1 for s in outshape][rng.randint(0, len(outshape)):]
     return {"ufunc": list(uf), "shape": shape, "shape2": shape2, "dtype": dtype, "salt": rng.randint(0, 50),
             "chunks": U.rand_chunks(rng, shape), "chunks2": U.rand_chunks(rng, shape2), "mode": mode,
             "wshape": wshape, "wchunks": U.rand_chunks(rng, wshape), "ochunks": U.rand_chunks(rng, outshape),
-            "dask_where": rng.random() < 0.7}
+            "dask_where": rng.random() < 0.7, "out_tuple": rng.random() < 0.4, "target_dtype": target}
 
 
 # ------------------------------------------------------------------------------------------------
